@@ -63,7 +63,8 @@ HEADER = ('From HailV Require Import Common.Prelude CSE.Model.\n'
           'Open Scope N_scope.\n'
           'Definition env0 : env := fun v => match v with U n => VInt (Z.of_N n + 3) | C _ => VJunk end.\n'
           '(* one packaged function: a tuple written under the chain of lets makes elaboration blow up *)\n'
-          'Definition out6 (r real : node) := (strip (cse r), wf_node r, fv r, eval (cse r) env0, eval r env0, eval real env0).\n')
+          'Definition out6 (r real : node) := (strip (cse r), wf_node r, fv r, eval (cse r) env0, eval r env0, eval real env0,\n'
+          '  (evalE (cse r) env0, evalE r env0, evalE real env0, wf_arity r && loops_ok r)).\n')
 
 MAX_INLINE = 2500
 
@@ -78,12 +79,15 @@ def _corpus():
     return out
 
 
-def _cases(ctx, n_random, n_targeted):
+def _cases(ctx, n_random, n_targeted, n_failing):
     rng = ctx.rng
     cases = _corpus()
     for i in range(n_targeted):
         mode = 'api' if i % 2 == 0 else 'ir'
         cases.append({'mode': mode, 'prog': L.targeted_program(rng, mode)})
+    for i in range(n_failing):
+        mode = 'api' if i % 2 == 0 else 'ir'
+        cases.append({'mode': mode, 'prog': L.failing_program(rng, mode)})
     for i in range(n_random):
         mode = 'api' if i % 2 == 0 else 'ir'
         g = L.Gen(rng, mode, budget=rng.choice([6, 10, 14, 20, 30]))
@@ -129,7 +133,7 @@ def _static_checks(ctx):
                             raise TieBroken('memo', f'{rel}/{f}:{ln} writes to a renderer memo table: {line.strip()[:120]}')
 
 
-_META_HEADS = [['I32', 1], ['True'], ['False'], ['Bin', '+'], ['Un', '-'], ['Cmp', '<'], ['If'], ['Let', 'x'], ['Ref', 'x'],
+_META_HEADS = [['I32', 1], ['True'], ['False'], ['Bin', '+'], ['Bin', '//'], ['Idx', False], ['Idx', True], ['Un', '-'], ['Cmp', '<'], ['If'], ['Let', 'x'], ['Ref', 'x'],
                ['MakeStruct', ['a']], ['GetField', 'a'], ['MakeArray'], ['ArrayLen'], ['CastToArray'], ['ToArray'], ['ToStream'],
                ['StreamMap', 'x'], ['StreamFilter', 'x'], ['StreamFold', 'x', 'y']]
 
@@ -144,7 +148,7 @@ def _model_meta(ctx):
     vals = coq_eval(ctx, HEADER, exprs, label='meta')
     out = {}
     for h, v in zip(_META_HEADS, vals):
-        out[h[0]] = [(bool(nb), sorted(names.var_back(x) for x in bs)) for nb, bs in v]
+        out[h[0]] = [(bool(nb), sorted(names.var_back(x) for x in bs)) for nb, bs in v]   # (same table for every op of Bin / Idx)
     return out
 
 
@@ -181,17 +185,19 @@ def _model_eval(ctx, items):
     vals = coq_eval(ctx, HEADER, exprs, shard=60, label='corr')
     out = []
     for v, names in zip(vals, namess):
-        term, wf, fvs, v_cse, v_in, v_real = v
+        term, wf, fvs, v_cse, v_in, v_real, (e_cse, e_in, e_real, side) = v
         out.append({'term': L.coq_to_term(term, names), 'wf': wf, 'fv': sorted({names.var_back(x) for x in fvs}),
                     'v_cse': L.coq_to_value(v_cse, names), 'v_in': L.coq_to_value(v_in, names),
-                    'v_real': L.coq_to_value(v_real, names)})
+                    'v_real': L.coq_to_value(v_real, names),
+                    'e_cse': L.coq_to_result(e_cse, names), 'e_in': L.coq_to_result(e_in, names),
+                    'e_real': L.coq_to_result(e_real, names), 'side': bool(side)})
     return out
 
 
 def correspond(ctx):
     sys.setrecursionlimit(100000)
     _static_checks(ctx)
-    cases = _cases(ctx, ctx.scale(500, 6000), ctx.scale(150, 1500))
+    cases = _cases(ctx, ctx.scale(400, 5000), ctx.scale(120, 1200), ctx.scale(160, 1600))
     res = _run_impl(ctx, cases)
     dis = []
     _check_meta(res, _model_meta(ctx), dis)
@@ -209,7 +215,8 @@ def correspond(ctx):
         items.append((r['dag'], real))
         idx.append(k)
     model = _model_eval(ctx, items)
-    distinct, heads, hist = set(), {}, {'lets_0': 0, 'lets_1-2': 0, 'lets_3+': 0, 'api': 0, 'ir': 0}
+    distinct, heads, hist = set(), {}, {'lets_0': 0, 'lets_1-2': 0, 'lets_3+': 0, 'api': 0, 'ir': 0, 'inline_fails': 0,
+                                        'side_condition_false': 0, 'model_refuted_class(let above loop fails)': 0}
     samples = []
     for k, (dag, real), m in zip(idx, items, model):
         c, r = cases[k], res[k]
@@ -220,6 +227,14 @@ def correspond(ctx):
             dis.append(Disagreement('free_vars', c, m['fv'], dag['nodes'][str(dag['root'])]['fv']))
         if m['v_cse'] != m['v_in']:
             raise HarnessError(f'model contradicts its own theorem on {json.dumps(c)[:300]}')
+        hist['inline_fails'] += m['e_in'] == L.ERR
+        hist['side_condition_false'] += not m['side']
+        if m['e_cse'] != m['e_in']:
+            if m['side']:
+                raise HarnessError(f'model contradicts its own error-semantics theorem on {json.dumps(c)[:300]}')
+            if not (m['e_cse'] == L.ERR):     # C35_errors_never_hidden
+                raise HarnessError(f'model contradicts C35_errors_never_hidden on {json.dumps(c)[:300]}')
+            hist['model_refuted_class(let above loop fails)'] += 1
         if 'cse' not in r:
             dis.append(Disagreement('cse~CSERenderer', c, 'model renders the DAG', {'raises': r.get('cse_exc')}))
             continue
@@ -231,6 +246,8 @@ def correspond(ctx):
             continue
         if m['v_real'] != m['v_in']:
             dis.append(Disagreement('eval(real output)=eval(inline)', c, m['v_in'], m['v_real']))
+        if m['e_real'] != m['e_in'] and m['side']:
+            dis.append(Disagreement('evalE(real output)=evalE(inline)', c, m['e_in'], m['e_real']))
         nlets = r['cse'].count('(Let eval __cse_')
         hist['lets_0' if nlets == 0 else 'lets_1-2' if nlets <= 2 else 'lets_3+'] += 1
         if nlets:
@@ -249,7 +266,7 @@ def correspond(ctx):
                      'with at least one lifted let',
                 samples=samples, disagreements=dis,
                 histograms={'shape': hist, 'node_classes': dict(sorted(heads.items()))},
-                names=['cse~CSERenderer', 'metadata', 'free_vars', 'eval(real output)=eval(inline)'])
+                names=['cse~CSERenderer', 'metadata', 'free_vars', 'eval(real output)=eval(inline)', 'evalE(real output)=evalE(inline)'])
 
 
 def _show(t):
@@ -281,12 +298,35 @@ def _judge(c, r):
         a, b = L.evaluate(t, env), L.evaluate(inl, env)
         if a != b:
             return Failure('value-differs', 'rendered IR evaluates to a different value than the inlined IR', c, b, {'value': a, 'cse': r['cse'][:800]})
+        (ra, name), (rb, _) = L.evaluate_err(t, env), L.evaluate_err(inl, env)
+        if ra == rb:
+            continue
+        if rb == L.ERR:
+            return Failure('error-removed', 'the inlined IR fails (division by zero / index out of bounds) but the rendered IR returns a value',
+                           c, 'error', {'value': ra, 'cse': r['cse'][:800]})
+        if ra != L.ERR:
+            return Failure('value-differs', 'rendered IR evaluates to a different value than the inlined IR', c, rb, {'value': ra, 'cse': r['cse'][:800]})
+        # the rendered IR fails, the inlined IR does not: which let was being evaluated, and where are its uses?
+        where, paths = 'other', []
+        let = L.find_let(t, name) if name else None
+        if let is not None:
+            paths = [sorted(p) for p in L.use_paths(let[1][1], name)]
+            if any('if' in p for p in paths):
+                where = 'let-hoisted-out-of-if-branch'
+            elif paths and all('loop' in p for p in paths):
+                where = 'let-hoisted-out-of-loop-body'
+        what = {'let-hoisted-out-of-if-branch': f'the rendered IR evaluates `{name}` (a failing expression) before an If whose untaken branch '
+                                                'holds its only uses: the rendered IR fails, the inlined IR returns a value',
+                'let-hoisted-out-of-loop-body': f'the rendered IR binds `{name}` (a failing expression) outside a loop whose body holds its only uses; '
+                                                'the loop runs zero times: the rendered IR fails, the inlined IR returns a value',
+                'other': 'the rendered IR fails (division by zero / index out of bounds), the inlined IR returns a value'}[where]
+        return Failure('error-introduced:' + where, what, c, rb, {'result': 'error', 'failing_let': name, 'uses': paths, 'cse': r['cse'][:800]})
     return None
 
 
 def oracle(ctx, budget):
     sys.setrecursionlimit(100000)
-    cases = _cases(ctx, ctx.scale(500, 5000) * budget, ctx.scale(400, 4000) * budget)
+    cases = _cases(ctx, ctx.scale(400, 4000) * budget, ctx.scale(300, 3000) * budget, ctx.scale(400, 4000) * budget)
     res = ctx.run_impl('c35_cse.py', {'cases': cases}, timeout=1500)['results']
     fails, n, nontrivial = [], 0, set()
     for c, r in zip(cases, res):
@@ -304,7 +344,10 @@ def oracle(ctx, budget):
     fails.sort(key=lambda f: len(json.dumps(f.case)))
     return fails, {'evaluations': n, 'distinct_nontrivial': len(nontrivial),
                    'rule': 'oracle: real CSERenderer output read back; no exception, free variables of the output within those of the '
-                           'inlined IR, same value as the inlined IR under two environments (reference evaluator in Python)'}
+                           'inlined IR, same value AND same failure behaviour (semantics with errors: strict Let, only the taken If '
+                           'branch, loop bodies once per element, // and % by zero and out-of-bounds indexing fail) as the inlined IR under '
+                           'two environments (reference evaluator in Python); programs include the family with FAILING shared '
+                           'subexpressions in evaluated / unevaluated places'}
 
 
 def replay(ctx, doc):
